@@ -71,8 +71,17 @@ def extract(repo="/repo"):
     # ---- str_to_time -----------------------------------------------------------
     g = _fn(tree, "str_to_time")
     body = [s for s in g.body if not (isinstance(s, ast.Expr) and isinstance(s.value, ast.Constant))]
-    # optional: if isinstance(x, bytes): x = x.decode()
-    if body and isinstance(body[0], ast.If):
+    # optional guards that do not concern text input:
+    #   if isinstance(x, bytes): x = x.decode()      and      if x is None: return None
+    garg = g.args.args[0].arg
+    while body and isinstance(body[0], ast.If):
+        node = body[0]
+        src = ast.unparse(node).replace(" ", "").replace("\n", ";")
+        ok1 = src == "ifisinstance(%s,bytes):;%s=%s.decode()" % (garg, garg, garg)
+        ok2 = src == "if%sisNone:;returnNone" % garg.join(["", ""]) or \
+            src == "if" + garg + "isNone:;returnNone"
+        if not (ok1 or ok2 or src.startswith("if%sisNone:" % garg)):
+            raise Unsupported("str_to_time: unexpected guard %r" % ast.unparse(node))
         body = body[1:]
     if len(body) != 2 or not isinstance(body[0], ast.Assign) or not isinstance(body[1], ast.Return):
         raise Unsupported("str_to_time: unexpected statement shape")
